@@ -96,3 +96,12 @@ package core
 
 //@ func (a *TransferAttributes) Validate() (err)
 //@   ensures[base] err == nil ==> a != nil && taOK(a)
+
+// Identifier by enum name: the result is a function of the name (protoByName / actionByName).
+//@ func NewProtocolIDFromString(id) (p, err)
+//@   pure-result protoByName
+//@   ensures[base] err == nil ==> okProto(p) && p > 0
+
+//@ func NewActionIDFromString(id) (a, err)
+//@   pure-result actionByName
+//@   ensures[base] err == nil ==> okAction(a) && a != ACTION_UNSUPPORTED
